@@ -80,6 +80,17 @@ def check(ctx):
             else:
                 v = rng.choice(["plain", "vecbuf", "iov", "vec"])
                 lines.append("Enc %s %s" % (v, partitions(rng, p, False)[0] if v in ("iov", "vec") else gc.fmt(p)))
+        # lengths around the 8-bit boundary and beyond (size computations and counters that do not fit a byte); frames of
+        # 32 KiB and more are not generated: TLC's evaluation of Encode is quadratic in the frame length
+        for n in [253, 254, 255, 256, 257, 258, 511, 512, 1023, 2049]:
+            for rep in range(2 if n < 1000 else 1):
+                sp = gc.special_bytes(name)
+                p = [rng.choice(sp) if rng.random() < (0.5 if rep else 0.03) else rng.randrange(256) for _ in range(n)]
+                if name == "legacy":
+                    lines.append("Enc plain %s" % gc.fmt(p))
+                else:
+                    for v in (["plain", "vecbuf", "iov", "vec"] if n < 1000 else [rng.choice(["plain", "vecbuf"]), rng.choice(["iov", "vec"])]):
+                        lines.append("Enc %s %s" % (v, partitions(rng, p, False)[0] if v in ("iov", "vec") else gc.fmt(p)))
     # executions of moderate size
     script = []
     cur_name = None
